@@ -7,3 +7,5 @@ import PhyloModel.Props.C14
 #print axioms C14.strictGo_no_panic
 #print axioms C14.header_required
 #print axioms C14.row_fields_roundtrip
+#print axioms C14.tril_roundtrip
+#print axioms C14.size_line_roundtrip
